@@ -296,10 +296,12 @@ def enumerator (e : Expr) : Option Int :=
   | some v => if inRange .int v then some v else none
   | none => none
 
-/-- array bound: shall be greater than zero (6.7.6.2p1) -/
+/-- array bound: shall be greater than zero (6.7.6.2p1).  Implementation limit (5.2.4.1; gcc: "size of
+    array exceeds maximum object size"): no object is larger than `PTRDIFF_MAX = LONG_MAX` bytes, so a
+    bound above it has no meaning here either. -/
 def arrayBound (e : Expr) : Option Int :=
   match eval e with
-  | some v => if v > 0 then some v else none
+  | some v => if v > 0 ∧ v ≤ Ty.long.maxV then some v else none
   | none => none
 
 end Spec.CInt
